@@ -11,6 +11,17 @@ class LifeGen(storegen.HistGen):
         super().__init__(rng, nbuckets=3, grid=4)
         self.alive = set()
 
+    def late_write(self, b):
+        """a write through a handle the client still holds of a bucket that does not exist (any more): it must be refused and
+        leave no trace - in particular nothing that a later bucket of the same id would start with"""
+        if self.rng.random() < 0.6:
+            self.ops.append(["insert", b, storegen.rand_ev(self.rng, self.grid, self.base)])
+            self.nrefs += 1  # (a refused insert still takes a reference number in the runner)
+        else:
+            evs = [storegen.rand_ev(self.rng, self.grid, self.base) for _ in range(self.rng.randint(1, 3))]
+            self.ops.append(["bulk", b, evs])
+            self.nrefs += len(evs)
+
     def step(self):
         b = self.rng.choice(self.buckets)
         r = self.rng.random()
@@ -26,8 +37,10 @@ class LifeGen(storegen.HistGen):
                 self.ops.append(["lookup", b])
             elif r < 0.75:
                 self.ops.append(["metadata", b])
-            elif r < 0.87:
+            elif r < 0.85:
                 self.ops.append(["update", b, {"name": "x"}])
+            elif r < 0.93:
+                self.late_write(b)
             else:
                 self.ops.append(["delbucket", b])
             return
@@ -119,6 +132,8 @@ class C05(Prop):
             g.live[b] = []
             if rng.random() < 0.3:
                 g.ops.append(["lookup", b])
+            if rng.random() < 0.5:
+                g.late_write(b)  # the client's old handle is used once more before the id is created again
             g.ops.append(["create", b, storegen.mk_meta(rng, b)])
             writes()
             g.ops.append(["get", b, -1, None, None])
